@@ -188,6 +188,18 @@ func judgeTree(k *run.K, t model.Tree) {
 		return
 	}
 	shared.ConcreteAgree(k, x, "concrete-entry", []shared.Call{{Method: "MarshalJSON"}}, nil)
+	// the returned bytes belong to the caller: later marshalling (of anything) must not change them
+	{
+		keep := string(b)
+		k.Lib("nopanic", func() {
+			_, _ = x.MarshalJSON()
+			_, _ = geom.NewLineStringXY(1, 2, 3, 4).AsGeometry().MarshalJSON()
+			_, _ = geom.NewMultiPointXY(7, 7, 8, 8).AsGeometry().MarshalJSON()
+			_, _ = geom.NewPointXYZ(1, 2, 3).MarshalJSON()
+			_, _ = geom.NewPointXY(9.5, -9.5).AsGeometry().MarshalJSON()
+		})
+		k.Check("syntax", string(b) == keep, "bytes returned by MarshalJSON changed after later MarshalJSON calls: %s -> %s", clip(keep), clip(string(b)))
+	}
 	k.In("geojson", string(b))
 	if !k.Check("syntax", err == nil && json.Valid(b), "MarshalJSON err=%v valid=%v: %s", err, json.Valid(b), clip(string(b))) {
 		return
